@@ -171,6 +171,7 @@ void generatePlan(uint64_t seed, const GenOptions &opt, Plan &P)
             if (f.kind == FK_EVP && !f.rel && R.chance(1, 3)) f.red = 1;
         }
         if (pr == "C20" && f.rel) f.red = R.chance(1, 2) ? 2 : 1;
+        if (pr == "C20" && !f.rel && R.chance(2, 3)) f.red = 1;     // KF-C20-1: quasi-reduced sets carry the gating runs
         if (pr == "C08") {
             if (f.rel) f.kind = FK_MTB;                         // relations are boolean
             else if (i == 0) f.kind = FK_MTB;                   // at least one boolean set forest
